@@ -109,17 +109,9 @@ class MultiObjectiveProblem(Problem[P]):
         self.n_objectives = len(self.minimize) if isinstance(self.minimize, list) else None
         self.initialized = not isinstance(self.minimize, bool) and self.n_objectives is not None
 
-        def default_single_objective_merge(d: Any) -> float:
-            if isinstance(self.minimize, list):
-                return sum(m and -fit or +fit for (fit, m) in zip(fitness_function(d), self.minimize))
-            elif isinstance(self.minimize, bool):
-                return sum(-fit if self.minimize else fit for fit in fitness_function(d))
-            else:
-                assert False, "minimize must be either a list[bool] or a bool"
-
         self.ff = {
             "ff": fitness_function,
-            "best_individual": best_individual_criteria_function or default_single_objective_merge,
+            "best_individual": best_individual_criteria_function,
             "aggregate_fitness": aggregate_fitness,
         }
 
@@ -136,11 +128,22 @@ class MultiObjectiveProblem(Problem[P]):
                 self.minimize = [bool(self.minimize) for _ in multiple]
             self.n_objectives = len(multiple)
             self.initialized = True
-        if self.ff["aggregate_fitness"] is None:
+        if self.ff["aggregate_fitness"] is not None:
+            single = self.ff["aggregate_fitness"](multiple)
+        elif self.ff["best_individual"] is not None:
             single = self.ff["best_individual"](phenotype)
         else:
-            single = self.ff["aggregate_fitness"](multiple)
+            single = self.default_single_objective_merge(multiple)
         return Fitness(single, multiple)
+
+    def default_single_objective_merge(self, components: list[float]) -> float:
+        """Sum of the components just computed, the minimised ones negated."""
+        if isinstance(self.minimize, list):
+            return sum(m and -fit or +fit for (fit, m) in zip(components, self.minimize))
+        elif isinstance(self.minimize, bool):
+            return sum(-fit if self.minimize else fit for fit in components)
+        else:
+            assert False, "minimize must be either a list[bool] or a bool"
 
     def number_of_objectives(self) -> int:
         """This is updated after each execution.
